@@ -16,7 +16,7 @@ import os
 from fractions import Fraction
 
 from sim import abort as abortmod
-from sim.digest import digest
+from sim.digest import digest, excname
 from sim.rng import Rng
 from sim.simfs import SimFS
 from engines import designs
@@ -761,7 +761,7 @@ def _run_case_body(case, fs, root):
                     ok = True
                 except OSError as e:
                     ok = False
-                    outcome = "persist raised " + type(e).__name__
+                    outcome = "persist raised " + excname(e)
                 if len(fs.fired) > nfired:
                     fk = fs.fired[-1]["kind"]
                     fired[fk] = fired.get(fk, 0) + 1
@@ -850,12 +850,14 @@ def _run_case_body(case, fs, root):
         except abortmod.SimAbort:
             raise
         except Exception as e:
-            outcome = "raised " + type(e).__name__
+            outcome = "raised " + excname(e)
             prop = "C02"
             viol.append({"property": prop, "clause": "operation raised on a valid allocation",
-                         "key": {"op": kind, "exc": type(e).__name__,
+                         "key": {"op": kind, "exc": excname(e),
                                  "units": "large" if (float(tol.size) >= 1e6 and not tol.exact) else "ordinary",
-                                 "overlap_assertion": "rectangles overlap" in repr(e)},
+                                 # the result of the operation was rejected by the constructor's overlap test (whatever the
+                                 # class or the wording of the error): an assertion-like error that speaks of an overlap
+                                 "rejected_for_overlap": isinstance(e, AssertionError) and "overlap" in repr(e).lower()},
                          "detail": {"seq": seq, "op": o, "exc": repr(e)[:300], "cells": [_fmt(c) for c in old[:12]]}})
         entry["out"] = outcome
         hist.append(entry)
